@@ -50,7 +50,7 @@ for pid in sorted(CHECKS):
     text, note, ref = CHECKS[pid]
     m["checks"].append({"property_id":pid,
       "quick_cmd": f"cd /verif && bin/vcheck -prop {pid} -tier quick",
-      "thorough_cmd": f"cd /verif && bin/vcheck -prop {pid} -tier thorough",
+      "thorough_cmd": f"cd /verif && tools/thorough.sh {pid}",
       "evidence_file": f"/verif/evidence/{pid}.json",
       "replay_cmd_template": "cat {path}",
       "engine":"govc",
